@@ -60,6 +60,10 @@ func NewWorld() *World { return &World{} }
 
 func (w *World) SetCluster(c ClusterSpec) {
 	w.Pools, w.Namespaces, w.Nodes, w.L2Advs, w.BGPAdvs, w.Peers, w.Comms, w.BFDs = nil, nil, nil, nil, nil, nil, nil, nil
+	w.ConfigMaps = nil
+	if c.Extras != "" {
+		w.ConfigMaps = []*corev1.ConfigMap{{ObjectMeta: metav1.ObjectMeta{Name: "bgpextras", Namespace: MetalNS}, Data: map[string]string{"extras": c.Extras}}}
+	}
 	for _, p := range c.Pools {
 		cr := p.CR()
 		w.Pools = append(w.Pools, &cr)
